@@ -9,9 +9,10 @@ CONSTANTS
     CapN = 2
     Cache = 4096
     Compress = FALSE
+    ExtK = 0
     CapProbe = TRUE
     Debug = FALSE
     HookMode = "ok"
 VIEW View
-PROPERTIES HttpEqualsPipe OneTurnPerContinuation CapsHold CapReplaces HookBalanced
+PROPERTIES HttpEqualsPipe OneTurnPerContinuation CapsHold ExtCapHolds CapReplaces HookBalanced
 CHECK_DEADLOCK FALSE
